@@ -8,5 +8,7 @@ CONSTANTS
   PreFix = FALSE
   CoarseCancel = TRUE
   Modes = {"none", "nowait", "wait"}
+  Modes2 = {"none"}
+  NeverExits = {}
 VIEW TView
 INVARIANTS Accept
